@@ -6,7 +6,7 @@ R3 nullable closest pair / infinite sentinel.
 import ast
 
 from sa import callgraph, typestate
-from sa.astutil import (func_params, anorm, call_name, calls_in, dotted, norm, walk_no_nested, last_attr,
+from sa.astutil import (effective, func_params, anorm, call_name, calls_in, dotted, norm, walk_no_nested, last_attr,
                         names_in, fact_texts, facts_at, enclosing_loops, is_inf, try_fold,
                         guards_of, flatten_and)
 from sa.loader import AnalysisError
@@ -215,8 +215,8 @@ def run(ctx):
     for n in walk_no_nested(hbi):
         if isinstance(n, ast.If) and isinstance(n.test, ast.Compare) and len(n.test.ops) == 1 \
                 and isinstance(n.test.ops[0], (ast.Gt, ast.GtE)) \
-                and len(n.body) == 1 and isinstance(n.body[0], ast.Return) \
-                and (n.body[0].value is None or norm(n.body[0].value) == 'None'):
+                and len(effective(n.body)) == 1 and isinstance(effective(n.body)[0], ast.Return) \
+                and (effective(n.body)[0].value is None or norm(effective(n.body)[0].value) == 'None'):
             left, right = can.text(n.test.left), can.text(n.test.comparators[0])
             if left.startswith('get_smallest_distance(') and left.endswith(')[1]') \
                     and '.get_hydrogen_bond_parameters(' in right and right.endswith(')[1][1]'):
@@ -233,10 +233,11 @@ def run(ctx):
                 and isinstance(n.test.ops[0], (ast.Gt, ast.GtE)) \
                 and can.text(n.test.left) == cparams[3] \
                 and can.text(n.test.comparators[0]) == cparams[0] + '.coulomb_cutoff2' \
-                and len(n.body) == 1 and isinstance(n.body[0], ast.Assign) \
-                and isinstance(n.body[0].value, ast.Constant) and n.body[0].value.value is False:
+                and len(effective(n.body)) == 1 and isinstance(effective(n.body)[0], ast.Assign) \
+                and isinstance(effective(n.body)[0].value, ast.Constant) \
+                and effective(n.body)[0].value.value is False:
             # the flag assigned here is the one returned
-            flag = norm(n.body[0].targets[0])
+            flag = norm(effective(n.body)[0].targets[0])
             if any(isinstance(r, ast.Return) and r.value is not None and norm(r.value) == flag
                    for r in walk_no_nested(ccp)):
                 far.append(n)
